@@ -44,6 +44,7 @@ def run_one(engine, plan, scratch):
     signal.signal(signal.SIGALRM, _alarm)
     signal.alarm(RUN_WALL_LIMIT)
     try:
+        os.chdir(scratch)  # the previous run's world (and with it the cwd) is gone
         history = engine.execute(plan, scratch)
         violations = engine.oracle(plan, history)
     finally:
